@@ -794,9 +794,12 @@ func fixedTableLayout(box *bo.BoxFields) {
 	}
 
 	var firstRowCells []Box
-	if len(table.Children) != 0 && len(table.Children[0].Box().Children) != 0 {
-		firstRowgroup := table.Children[0].Box()
-		firstRowCells = firstRowgroup.Children[0].Box().Children
+	// the first row of the table: row groups may be empty
+	for _, group := range table.Children {
+		if rows := group.Box().Children; len(rows) != 0 {
+			firstRowCells = rows[0].Box().Children
+			break
+		}
 	}
 	var sum int
 	for _, cell := range firstRowCells {
